@@ -8,7 +8,7 @@ VARIABLE i
 Init == i \in 1..Len(Rows)
 Next == UNCHANGED i
 R == Rows[i]
-\* row = <<a, b, k, add, sub, diff, newer, lt, gt>> with booleans as 0/1
+\* row = <<a, b, k, add, sub, diff, newer, lt, gt, off, le, ge>> with booleans as 0/1
 B(x) == IF x THEN 1 ELSE 0
 RowOK == /\ R[4] = Add(R[1], R[3]) /\ R[4] \in 1..M
          /\ R[5] = Sub(R[1], R[3]) /\ R[5] \in 1..M
@@ -21,4 +21,5 @@ MathOK == LET off == R[10] IN
           (off \in (-Half)..Half) =>
               /\ R[6] = -off
               /\ R[7] = B(off < 0) /\ R[8] = B(off > 0) /\ R[9] = B(off < 0)
+              /\ R[11] = B(off >= 0) /\ R[12] = B(off <= 0)          \* <= and >= are comparisons on the ring too (the handler is handed SeqNum objects)
 =============================================================================
